@@ -453,7 +453,7 @@ def nativeLit (j : Json) (dt : Option Str) : Option T :=
 /-- a node reference from an expanded identifier; only absolute IRIs and blank node identifiers -/
 def nodeRef : Exp → Option T
   | .iri v => if absIri v then some (.iri v) else none
-  | .bnode l => some (.bnode (.orig l))
+  | .bnode l => if l = [] then none else some (.bnode (.orig l))   -- `_:` alone is not an identifier
   | _ => none
 
 /-- §5.3 Value Expansion of a scalar under the term definition of the active property, then §8 -/
